@@ -25,6 +25,11 @@ def gen(tier, rng):
         e = rand_os_form(rng, c, maxdepth=4)
         for m in modes:
             out.append("os.views %s %s" % (m, hx(e)))
+        # re-encoding of the decoded value: BER keeps the segmentation, DER flattens
+        if rng.random() < 0.5:
+            for em in ("ber", "der"):
+                q = "enc %s OS u4 ber %s" % (em, hx(e))
+                out.append(q); REENC[q] = ("os.views ber %s" % hx(e), em, e)
         if rng.random() < 0.5:
             e2 = mutate(rng, e)
             out.append("os.views %s %s" % (rng.choice(modes), hx(e2)))
@@ -67,6 +72,18 @@ def gen(tier, rng):
     return out
 
 SRC = {}
+REENC = {}
+BACK = {}
+def phase2(reqs, answers):
+    """read the re-encoded octets back with the real decoder in the mode they were written in"""
+    more = []
+    for r, a in zip(reqs, answers):
+        if r in REENC and a.startswith("ok len="):
+            out = a.split(" ")[2]
+            q = "os.views %s %s" % (REENC[r][1], out)
+            more.append(q); BACK[q] = r
+    return more
+
 def canon(req, ans):
     import scripts
     return scripts.canon_rest(req, ans)
@@ -75,6 +92,26 @@ def relational(reqs, answers):
     import re
     fails = []
     idx = {r: a for r, a in zip(reqs, answers)}
+    def content(a):
+        import re as _re
+        m = _re.search(r" bytes=([0-9a-f]*|-)", a or "")
+        return m.group(1) if m else None
+    for q, r in BACK.items():
+        orig_req, em, e = REENC[r]
+        a_orig, a_back = idx.get(orig_req), idx.get(q)
+        if a_orig is None or not a_orig.startswith("ok"):
+            continue
+        if a_back is None or not a_back.startswith("ok") or content(a_back) != content(a_orig):
+            f = {"request": r, "impl": "%s ; read back: %s" % (idx.get(r), a_back),
+                 "spec": "re-encoding yields a well-formed %s encoding of the same content (%s)" % (em.upper(), content(a_orig))}
+            if em == "ber" and e[:2] == bytes([0x24, 0x80]):
+                f["sig"] = "D12"   # capture of an indefinite value's content includes its end-of-contents octets
+            fails.append(f)
+    for r in REENC:
+        a = idx.get(r)
+        orig = idx.get(REENC[r][0])
+        if orig is not None and orig.startswith("ok") and (a is None or not a.startswith("ok len=")):
+            fails.append({"request": r, "impl": a, "spec": "an accepted octet string can be re-encoded"})
     for r, base in SRC.items():
         a, b = idx.get(r), idx.get(base)
         if a is None or b is None:
